@@ -1,11 +1,266 @@
-//! Observers that are evaluated in every explored state of some families: invalid-argument
-//! probes (C09/C10), failing calls (C10), foreign keys (C17/C08), recaps (C18), headers (C13).
+//! Observers evaluated in every explored state of some families: forged / foreign keys
+//! (C08, C17), re-encapsulation (C18), headers (C13). They must not change the world; every
+//! probe checks that itself (C10).
 
-use crate::world::{Op, World};
+use std::collections::BTreeSet;
+use std::panic::{catch_unwind, AssertUnwindSafe};
 
-pub fn run(_w: &mut World, kind: &str, _last: &Op) {
+use cosmian_cover_crypt::{api::Covercrypt, traits::KemAc, AccessPolicy, CleartextHeader, EncryptedHeader, UserSecretKey};
+use cosmian_crypto_core::bytes_ser_de::Serializable;
+
+use crate::model::*;
+use crate::wire::{self, WUsk};
+use crate::world::{msk_diff, msk_equal_canon, ser, Op, World};
+
+pub fn run(w: &mut World, kind: &str, last: &Op) {
     match kind {
-        "args" | "fail" | "foreign" | "recaps" | "headers" => {}
+        "forged" => forged(w),
+        "foreign" => foreign(w),
+        "recaps" => recaps(w, last),
+        "headers" => headers(w),
         _ => crate::common::machinery(&format!("unknown probe {kind}")),
+    }
+}
+
+/// `refresh_usk(msk, key)` must fail and change neither key.
+fn must_refuse(w: &mut World, key: &mut UserSecretKey, what: &str, clause: &str) {
+    let before_m = ser(&w.msk);
+    let before_u = ser(key);
+    for keep in [true, false] {
+        let r = catch_unwind(AssertUnwindSafe(|| w.cc.refresh_usk(&mut w.msk, key, keep)));
+        w.bump("refusal_probes");
+        match r {
+            Err(_) => w.fail("C09.p", format!("refresh of {what}: panicked")),
+            Ok(Ok(())) => {
+                w.fail(clause, format!("refresh(keep={keep}) accepted {what}"));
+                return;
+            }
+            Ok(Err(_)) => {}
+        }
+        let after_m = ser(&w.msk);
+        if after_m != before_m && !msk_equal_canon(&before_m, &after_m) {
+            w.fail("C10.a", format!("refused refresh of {what} modified the master key: {}", msk_diff(&before_m, &after_m)));
+        }
+        if ser(key) != before_u {
+            w.fail("C10.b", format!("refused refresh of {what} modified the user key"));
+        }
+    }
+}
+
+/// One representative of each tamper class of C08 applied to every live issued key.
+fn forged(w: &mut World) {
+    for k in 0..w.usks.len() {
+        if !w.usks[k].known {
+            continue;
+        }
+        let bytes = ser(&w.usks[k].usk);
+        let Ok(u) = WUsk::decode(&bytes) else { continue };
+        let mut variants: Vec<(&str, WUsk)> = vec![];
+        if let Some(sig) = &u.sig {
+            let mut v = u.clone();
+            let mut s = sig.clone();
+            s[0] ^= 1;
+            v.sig = Some(s);
+            variants.push(("a key with an altered signature", v));
+            let mut v = u.clone();
+            v.sig = None;
+            variants.push(("a key with its signature stripped", v));
+        }
+        if u.chains.len() > 1 {
+            let mut v = u.clone();
+            v.chains.pop();
+            variants.push(("a key with one right removed", v));
+            let mut v = u.clone();
+            v.chains.swap(0, 1);
+            variants.push(("a key with two rights reordered", v));
+            let mut v = u.clone();
+            let (a, b) = (v.chains[0].1.clone(), v.chains[1].1.clone());
+            v.chains[0].1 = b;
+            v.chains[1].1 = a;
+            variants.push(("a key with the secrets of two rights exchanged", v));
+        }
+        if u.id.len() > 1 {
+            let mut v = u.clone();
+            v.id.swap(0, 1);
+            variants.push(("a key with its markers exchanged", v));
+        }
+        for (what, v) in variants {
+            let b = v.encode();
+            if b == bytes {
+                continue;
+            }
+            if let Ok(Ok(mut key)) = catch_unwind(|| UserSecretKey::deserialize(&b)) {
+                must_refuse(w, &mut key, &format!("{what} (forged from key {k})"), "C08.a");
+            }
+        }
+    }
+}
+
+/// A key issued by another master key over the same structure must be refused.
+fn foreign(w: &mut World) {
+    let cc = Covercrypt::default();
+    let Ok((mut other, _)) = cc.setup() else { return };
+    other.access_structure = w.msk.access_structure.clone();
+    if cc.update_msk(&mut other).is_err() {
+        return;
+    }
+    let Ok(ap) = AccessPolicy::parse("*") else { return };
+    let Ok(mut key) = cc.generate_user_secret_key(&mut other, &ap) else { return };
+    must_refuse(w, &mut key, "a key issued by another master key", "C17.f");
+    forged(w);
+}
+
+/// C18: re-encapsulation of every original under the two most recent public keys.
+fn recaps(w: &mut World, _last: &Op) {
+    let n = w.mpks.len();
+    let js: Vec<usize> = if n >= 2 { vec![n - 1, n - 2] } else { vec![n - 1] };
+    let mut originals = vec![];
+    for j in 0..n {
+        originals.extend(w.menu_under(j, false));
+    }
+    let before_m = ser(&w.msk);
+    for orig in &originals {
+        for &j in &js {
+            let open: BTreeSet<RightM> = orig.model.targets.iter().filter(|(r, v)| w.model.master.get(r).is_some_and(|c| c.iter().any(|e| e.ver == *v))).map(|(r, _)| r.clone()).collect();
+            let pubj = w.mpks[j].model.clone();
+            let pubj = &pubj;
+            let wide: BTreeSet<RightM> = open.iter().filter(|r| pubj.keys.contains_key(*r)).cloned().collect();
+            let strict: BTreeSet<RightM> = wide.iter().filter(|r| w.model.master[*r][0].activated).cloned().collect();
+            let desc = format!("recaps(original {:?} made under public key {}, public key {j})", orig.policy, orig.mpk);
+            let r = catch_unwind(AssertUnwindSafe(|| w.cc.recaps(&w.msk, &w.mpks[j].mpk, &orig.enc)));
+            w.bump("recaps");
+            match r {
+                Err(_) => w.fail("C09.p", format!("{desc}: panicked")),
+                Ok(Err(e)) => {
+                    if !strict.is_empty() {
+                        let names: Vec<String> = strict.iter().map(|r| w.show_right(r)).collect();
+                        w.fail("C18.c", format!("{desc}: failed ({e}) although the master key can still open and publish {names:?}"));
+                    } else {
+                        w.bump("recaps_err_expected");
+                    }
+                }
+                Ok(Ok((secret, enc))) => {
+                    if open.is_empty() {
+                        w.fail("C18.a", format!("{desc}: succeeded although none of the original rights can be recovered"));
+                        continue;
+                    }
+                    if secret.to_vec() == orig.secret {
+                        w.fail("C18.n", format!("{desc}: returned the original secret"));
+                    }
+                    if ser(&enc) == ser(&orig.enc) {
+                        w.fail("C18.n", format!("{desc}: returned the original encapsulation"));
+                    }
+                    w.bump("recaps_ok");
+                    if let Ok(we) = wire::WEnc::decode(&ser(&enc)) {
+                        if we.items.len() < strict.len().max(1) || we.items.len() > wide.len().max(1) {
+                            w.fail("C18.t", format!("{desc}: new encapsulation has {} targets, expected between {} and {}", we.items.len(), strict.len(), wide.len()));
+                        }
+                        if strict == wide && !wide.is_empty() {
+                            let hybrid = wide.iter().all(|r| pubj.keys[r].1);
+                            if we.hybrid != hybrid {
+                                w.fail("C11.d", format!("{desc}: new encapsulation hybrid={}, expected {hybrid}", we.hybrid));
+                            }
+                        }
+                    }
+                    for k in 0..w.usks.len() {
+                        let held = w.usks[k].model.held.clone();
+                        let holds = |set: &BTreeSet<RightM>| set.iter().any(|r| held.get(r).is_some_and(|h| h.contains(&pubj.keys[r].0)));
+                        let must = holds(&strict);
+                        let may = holds(&wide);
+                        let got = catch_unwind(AssertUnwindSafe(|| w.cc.decaps(&w.usks[k].usk, &enc)));
+                        w.bump("decaps");
+                        match got {
+                            Ok(Ok(Some(s))) => {
+                                if !may {
+                                    w.fail("C18.d", format!("{desc}: key {k} ({}) opens the new encapsulation although it holds none of its rights", w.usks[k].policy));
+                                } else if s.to_vec() != secret.to_vec() {
+                                    w.fail("C18.s", format!("{desc}: key {k} recovers a secret different from the new one"));
+                                }
+                            }
+                            Ok(Ok(None)) => {
+                                if must {
+                                    w.fail("C18.o", format!("{desc}: key {k} ({}) is up to date and authorised for a re-encapsulated right but cannot open the new encapsulation", w.usks[k].policy));
+                                }
+                            }
+                            _ => w.fail("C09.d", format!("{desc}: decaps of the new encapsulation failed for key {k}")),
+                        }
+                    }
+                }
+            }
+        }
+    }
+    if ser(&w.msk) != before_m {
+        w.fail("C10.a", "recaps modified the master key".to_string());
+    }
+}
+
+/// C13 for encrypted and cleartext headers.
+fn headers(w: &mut World) {
+    let j = w.mpks.len() - 1;
+    let Ok(ap) = AccessPolicy::parse("A::x || A::y") else { return };
+    let dnf = parse_dnf("A::x || A::y");
+    let Ok(encm) = w.mpks[j].model.encaps(&dnf) else { return };
+    for (md, ad) in [(None, None), (Some(&b""[..]), Some(&b"ad"[..])), (Some(&b"m"[..]), None), (Some(&[7u8; 40][..]), Some(&b"ad"[..]))] {
+        let r = catch_unwind(AssertUnwindSafe(|| EncryptedHeader::generate(&w.cc, &w.mpks[j].mpk, &ap, md, ad)));
+        w.bump("headers");
+        let Ok(Ok((secret, hdr))) = r else {
+            w.fail("C09.o", "EncryptedHeader::generate failed for a publishable policy".to_string());
+            continue;
+        };
+        let b = ser(&hdr);
+        if b.len() != hdr.length() {
+            w.fail("C13.l", format!("encrypted header length() = {}, serialised {}", hdr.length(), b.len()));
+        }
+        match catch_unwind(|| EncryptedHeader::deserialize(&b)) {
+            Ok(Ok(h2)) => {
+                let same = h2.encapsulation == hdr.encapsulation && h2.encrypted_metadata.clone().unwrap_or_default() == hdr.encrypted_metadata.clone().unwrap_or_default();
+                if !same {
+                    w.fail("C13.e", "deserialised encrypted header differs from the original".to_string());
+                }
+                match wire::WHeader::decode(&b) {
+                    Ok(wh) => {
+                        if wh.md != hdr.encrypted_metadata.clone().unwrap_or_default() || wh.enc.hybrid != encm.hybrid {
+                            w.fail("C13.w", "encrypted header decodes to unexpected fields".to_string());
+                        }
+                    }
+                    Err(e) => w.fail("C13.w", format!("encrypted header does not decode with the pinned layout: {e}")),
+                }
+                for k in 0..w.usks.len() {
+                    let want = w.usks[k].model.opens(&encm);
+                    match catch_unwind(AssertUnwindSafe(|| h2.decrypt(&w.cc, &w.usks[k].usk, ad))) {
+                        Ok(Ok(Some(clear))) => {
+                            if !want {
+                                w.fail("C13.o", format!("key {k} decrypts a header it is not authorised for"));
+                            }
+                            if clear.secret.to_vec() != secret.to_vec() || clear.metadata.clone().unwrap_or_default() != md.unwrap_or_default() {
+                                w.fail("C13.o", "deserialised header decrypts to a different secret or metadata".to_string());
+                            }
+                            let cb = ser(&clear);
+                            if cb.len() != clear.length() {
+                                w.fail("C13.l", "cleartext header length() differs from its serialisation".to_string());
+                            }
+                            match catch_unwind(|| CleartextHeader::deserialize(&cb)) {
+                                Ok(Ok(c2)) => {
+                                    if c2.secret != clear.secret || c2.metadata.clone().unwrap_or_default() != clear.metadata.clone().unwrap_or_default() {
+                                        w.fail("C13.e", "deserialised cleartext header differs from the original".to_string());
+                                    }
+                                    if wire::WClear::decode(&cb).map(|c| c.md != md.unwrap_or_default()).unwrap_or(true) {
+                                        w.fail("C13.w", "cleartext header does not decode to the metadata".to_string());
+                                    }
+                                }
+                                _ => w.fail("C13.d", "own cleartext header rejected by deserialize".to_string()),
+                            }
+                        }
+                        Ok(Ok(None)) => {
+                            if want {
+                                w.fail("C13.o", format!("key {k} cannot decrypt a deserialised header it is authorised for"));
+                            }
+                        }
+                        _ => w.fail("C13.o", format!("decrypting a deserialised header with key {k} failed")),
+                    }
+                }
+            }
+            _ => w.fail("C13.d", "own encrypted header rejected by deserialize".to_string()),
+        }
     }
 }
